@@ -183,6 +183,9 @@ def scenario(ctx, cls, tab, mode, qlen=None):
         cuts = cuts_sym(ex, 2)
         obj = ex.new_object(cls, make_param(ex, tab, mode, qlen), {})
         state["obj"] = obj
+        # history: the same object was fitted on other data of the same size and evaluated before
+        call_method(ex, obj, "fit", data_sym(ex, "X0"))
+        call_method(ex, obj, "evaluate", cuts)
         call_method(ex, obj, "fit", X)
         state["fit_events"] = len(ex.events)
         ex.emit("marker", None, name="fit-done")
